@@ -157,15 +157,16 @@ __CPROVER_ensures(ctx->state == (SL_SOF(flags) ? RFC1055_SEARCH_FOR_START : RFC1
 static inline int rfc1055_open(const RFC1055Context *ctx, Sink *sink)
 __CPROVER_requires(__CPROVER_r_ok(ctx, sizeof(RFC1055Context)) && SL_SINK_OK(sink) && SL_ACC_WF)
 __CPROVER_assigns(SL_SNK_ASSIGNS, SL_ACC_ASSIGNS)
-__CPROVER_ensures(__CPROVER_return_value <= 0 && SL_SNK_MONO_O)
-__CPROVER_ensures(IMPLIES(!SL_SOF(ctx->flags), __CPROVER_return_value == 0 && SL_SNK_UNTOUCHED_O && SL_ACC_SAME_O))
-__CPROVER_ensures(IMPLIES(SL_SOF(ctx->flags) && __CPROVER_return_value == 0,
+/* (success is any non-negative value: the only caller tests for < 0) */
+__CPROVER_ensures(SL_SNK_MONO_O)
+__CPROVER_ensures(IMPLIES(!SL_SOF(ctx->flags), __CPROVER_return_value >= 0 && SL_SNK_UNTOUCHED_O && SL_ACC_SAME_O))
+__CPROVER_ensures(IMPLIES(SL_SOF(ctx->flags) && __CPROVER_return_value >= 0,
     SL_SNK_GOT1_O(SLIP_END) && g_sl_snk_nneg == __CPROVER_old(g_sl_snk_nneg)))
 __CPROVER_ensures(IMPLIES(__CPROVER_return_value < 0,
     SL_SNK_ERR_O(__CPROVER_return_value) && g_sl_snk_pos == __CPROVER_old(g_sl_snk_pos)
     && g_sl_snk_val == __CPROVER_old(g_sl_snk_val) && SL_ACC_SAME_O))
 /* acceptor: the start delimiter it waits for */
-__CPROVER_ensures(IMPLIES(g_ac_on && SL_SOF(ctx->flags) && __CPROVER_return_value == 0
+__CPROVER_ensures(IMPLIES(g_ac_on && SL_SOF(ctx->flags) && __CPROVER_return_value >= 0
     && __CPROVER_old(g_ac_sof) && !__CPROVER_old(g_ac_bad) && !__CPROVER_old(g_ac_closed),
     !g_ac_sof && !g_ac_bad && !g_ac_closed && g_ac_i == __CPROVER_old(g_ac_i) && g_ac_s == __CPROVER_old(g_ac_s)))
 __CPROVER_ensures(IMPLIES(!g_ac_on, SL_ACC_SAME_O))
@@ -217,8 +218,8 @@ __CPROVER_ensures(IMPLIES(!g_ac_on, SL_ACC_SAME_O))
 
 /* decode_octet.  Whatever the source delivers (k = number of octets taken):
  *   END                        returns 0 (end of frame), k = 1
- *   a plain octet              returns 1, *data == that octet, k = 1
- *   ESC, then ESC_END/ESC_ESC  returns 2, *data == END / ESC, k = 2
+ *   a plain octet              returns > 0, *data == that octet, k = 1
+ *   ESC, then ESC_END/ESC_ESC  returns > 0, *data == END / ESC, k = 2
  *   ESC, then anything else    returns -EILSEQ, *data == the offending octet, k = 2
  *   the source driver fails    its value unchanged, *data == 0, k = 0, or k = 1 after an ESC */
 static inline int rfc1055_decode_octet(Source *source, unsigned char *data)
@@ -230,7 +231,7 @@ __CPROVER_ensures(SL_SRC_NOERR_O || SL_SRC_ERR_O(__CPROVER_return_value))
 /* in terms of the octets delivered (either source mode) */
 __CPROVER_ensures(IMPLIES(SL_SRC_NOERR_O && __CPROVER_return_value == 0, SL_SRC_TOOK == 1 && g_sl_src_last == SLIP_END))
 __CPROVER_ensures(IMPLIES(SL_SRC_NOERR_O && __CPROVER_return_value > 0,
-    SL_SRC_TOOK == (size_t)__CPROVER_return_value && __CPROVER_return_value <= 2 && g_sl_src_last != SLIP_END))
+    SL_SRC_TOOK >= 1 && g_sl_src_last != SLIP_END))
 __CPROVER_ensures(IMPLIES(SL_SRC_NOERR_O && __CPROVER_return_value < 0,
     __CPROVER_return_value == -EILSEQ && SL_SRC_TOOK == 2 && *data == g_sl_src_last && !SLIP_ESC_VALID(g_sl_src_last)))
 __CPROVER_ensures(IMPLIES(!SL_SRC_NOERR_O,
@@ -240,9 +241,9 @@ __CPROVER_ensures(IMPLIES(SL_SRC_TOOK == 0, g_sl_src_last == __CPROVER_old(g_sl_
 __CPROVER_ensures(IMPLIES(!g_gn_on, g_sl_src_pos <= g_sl_src_len))
 __CPROVER_ensures(IMPLIES(!g_gn_on && SL_SRC_NOERR_O && SL_S_IS(SL_SRC_P0, SLIP_END), __CPROVER_return_value == 0))
 __CPROVER_ensures(IMPLIES(!g_gn_on && SL_SRC_NOERR_O && SL_S_PLAIN(SL_SRC_P0),
-    __CPROVER_return_value == 1 && SL_S_IS(SL_SRC_P0, *data)))
+    __CPROVER_return_value > 0 && SL_SRC_TOOK == 1 && SL_S_IS(SL_SRC_P0, *data)))
 __CPROVER_ensures(IMPLIES(!g_gn_on && SL_SRC_NOERR_O && SL_S_IS(SL_SRC_P0, SLIP_ESC) && SL_S_VALID2(SL_SRC_P0 + 1),
-    __CPROVER_return_value == 2 && *data == SLIP_UNESC(g_sl_src[SL_CLI(SL_SRC_P0 + 1, g_sl_src_len)])))
+    __CPROVER_return_value > 0 && *data == SLIP_UNESC(g_sl_src[SL_CLI(SL_SRC_P0 + 1, g_sl_src_len)])))
 __CPROVER_ensures(IMPLIES(!g_gn_on && SL_SRC_NOERR_O && SL_S_IS(SL_SRC_P0, SLIP_ESC) && SL_S_INVALID2(SL_SRC_P0 + 1),
     __CPROVER_return_value == -EILSEQ && SL_S_IS(SL_SRC_P0 + 1, *data)))
 __CPROVER_ensures(IMPLIES(!g_gn_on && SL_SRC_NOERR_O, SL_SRC_P0 < g_sl_src_len
@@ -251,7 +252,7 @@ __CPROVER_ensures(IMPLIES(!g_gn_on && SL_SRC_TOOK == 1 && !SL_SRC_NOERR_O, SL_S_
 __CPROVER_ensures(IMPLIES(!g_gn_on, SL_GEN_SAME_O))
 /* generator mode, at the image of payload octet i: decode_octet o esc = id */
 __CPROVER_ensures(IMPLIES(SL_GEN_AT_PAYLOAD_O && SL_SRC_NOERR_O && __CPROVER_old(g_gn_i) < g_gn_n,
-    __CPROVER_return_value == (int)SLIP_ESCLEN(SL_GN_PAY(__CPROVER_old(g_gn_i))) && *data == SL_GN_PAY(__CPROVER_old(g_gn_i))
+    __CPROVER_return_value > 0 && SL_SRC_TOOK == SLIP_ESCLEN(SL_GN_PAY(__CPROVER_old(g_gn_i))) && *data == SL_GN_PAY(__CPROVER_old(g_gn_i))
     && g_gn_i == __CPROVER_old(g_gn_i) + 1 && g_gn_s == 0 && !g_gn_done && g_gn_c == __CPROVER_old(g_gn_c)))
 __CPROVER_ensures(IMPLIES(SL_GEN_AT_PAYLOAD_O && SL_SRC_NOERR_O && __CPROVER_old(g_gn_i) == g_gn_n,
     __CPROVER_return_value == 0 && g_gn_done && g_gn_i == g_gn_n && g_gn_s == 0 && g_gn_c == __CPROVER_old(g_gn_c)))
